@@ -334,6 +334,44 @@ def classify_failure(t, d, off, exp, ans, model, got, year_now):
     return "+".join(ids) if ids else None
 
 
+def oracle_decimal_context(ctx, rng):
+    """renderings with a fraction under an AMBIENT decimal context (`decimal.getcontext().prec` set to 3, 5, 9 around the call: the
+    thread's context is process state the parser must not depend on for the digits it reads), and the same renderings with the
+    fraction padded by zeros to 7 … 60 digits (the same value written with more digits: must still round-trip)."""
+    import decimal
+    frac = [t for t in G.TEMPLATES if (t['prec'] == 'us' or isinstance(t['prec'], tuple)) and not t['yy']]
+    dflt = datetime.datetime(2001, 1, 1)
+    for _ in range(ctx.budget(400, 4000)):
+        t = rng.choice(frac)
+        d = G.boundary_dt(rng)
+        if t['ydec'] and d.year < 100:
+            continue
+        text = G.render(t, d, None)
+        exp = expect_of(d, t['prec'], dflt, t['name'])
+        ref = L.run_impl(L.Call(text, default=dflt, dayfirst=t['flags'].get('dayfirst'), yearfirst=t['flags'].get('yearfirst')))[0]
+        variants = [("prec", p, text) for p in (3, 5, 9)]
+        if text[-1:].isdigit() and ref.startswith("ok "):          # the fraction ends the text: pad it with zeros
+            variants += [("pad", k, text + "0" * k) for k in (1, 10, 22, 23, 24, 30, 60)]
+        for kind, k, txt in variants:
+            c = L.Call(txt, default=dflt, dayfirst=t['flags'].get('dayfirst'), yearfirst=t['flags'].get('yearfirst'), tag=t['name'])
+            if kind == "prec":
+                with decimal.localcontext() as dc:
+                    dc.prec = k
+                    ans, _, got = L.run_impl(c, raw=True)
+            else:
+                ans, _, got = L.run_impl(c, raw=True)
+            ctx.case(("decimal-context", kind, k, txt), nontrivial=ans.startswith("ok "))
+            ctx.count("decimal_context_%s" % kind)
+            # the reference is the same rendering under the default context (the known 3-/5-digit NNhNNmNN.fs rejection stays what it is)
+            ok = (ans == ref) if kind == "prec" else (ref.startswith("ok ") and ans.startswith("ok ") and got == exp)
+            if not ok:
+                case = c.describe()
+                case.update({"template": t['name'], "datetime": d.isoformat(), "offset": None, "year": d.year,
+                             "decimal_context_prec": k if kind == "prec" else None, "fraction_zero_padding": k if kind == "pad" else None})
+                ctx.violation("parse(render(dt)) != the datetime rendered (ambient decimal context / zero-padded fraction)", case,
+                              {"impl": ans, "default_context": ref, "expected": exp.isoformat()})
+
+
 def oracle(ctx):
     import time as _time
     from dateutil import parser as P
@@ -426,6 +464,10 @@ def oracle(ctx):
                 if not (ans.startswith("ok ") and got.year == y and year_now - 50 <= got.year <= year_now + 49):
                     case = c.describe(); case.update({"template": t['name'], "year": y, "year_via_decimal": False})
                     ctx.violation("two-digit year must resolve to the unique year within -50..+49 of %d" % year_now, case, {"impl": ans})
+        oracle_decimal_context(ctx, ctx.subrng("decimal-context"))
+        # the two-digit-year rule under OTHER clock years (parserinfo() built with time.localtime patched to 1950 … 2099): all 100
+        # two-digit years against "the unique year within -50..+49 of the clock year"
+        L.pivot_oracle(ctx)
         # the two witnesses, re-confirmed on every run
         ctx.sample({"text": "Wed May 28 23:52:59 0031", "finding": "D-C02-monthname-century",
                     "impl": L.run_impl(L.Call("Wed May 28 23:52:59 0031", default=datetime.datetime(2001, 1, 1)))[0]})
@@ -461,10 +503,22 @@ def replay(ctx, payload):
     if c.get("text") is None:
         print("not a parse case: %s" % c)
         return False
+    if c.get("tag") == "pivot":
+        call = L.call_from_case(c)
+        a, _, got = L.run_impl(call, raw=True)
+        print("clock year %s (patched: %s): parse(%s) = %s; expected year %s" % (c.get("clock_year"), c.get("patched_clock_year"),
+                                                                              ascii(c["text"]), a, c.get("expected_year")))
+        return a.startswith("ok ") and got.year == c.get("expected_year")
     prev = L.set_tz(c.get("TZ") or "UTC")
     try:
         call = L.call_from_case(c)
-        a, _, got = L.run_impl(call, raw=True)
+        if c.get("decimal_context_prec"):
+            import decimal
+            with decimal.localcontext() as dc:
+                dc.prec = int(c["decimal_context_prec"])
+                a, _, got = L.run_impl(call, raw=True)
+        else:
+            a, _, got = L.run_impl(call, raw=True)
         m = L.model_answers(ctx, [call])[0]
     finally:
         L.set_tz(prev)
